@@ -16,9 +16,9 @@ INVS = ["WellFormed", "ValidAccepted", "BelowRejected", "MutationRejected", "Dec
 # alterations that must occur in every model with at least three validators (vacuity guard)
 CERT_LABELS = ["honest", "kind", "slot", "hash", "stake", "swapHalves", "noHalves", "emptyHalves",
                "addHalf", "emptyHalf", "maskAdd", "maskDel", "bagAdd", "bagDel", "bagDup", "bagForeign",
-               "sigBytes", "sigPayload", "aggPayload", "sigBy", "len", "lenBit", "addSigner",
+               "sigBytes", "sigTorsion", "sigPayload", "aggPayload", "sigBy", "len", "lenBit", "addSigner",
                "delSigner", "replSigner", "dropHalf", "moveSig"]
-VOTE_LABELS = ["id", "kind", "slot", "hash", "signer", "sigPayload", "sigBy", "sigBytes", "product"]
+VOTE_LABELS = ["id", "kind", "slot", "hash", "signer", "sigPayload", "sigBy", "sigBytes", "sigTorsion", "product"]
 
 
 def cfg(depth, overlap, product, mod, res):
@@ -135,6 +135,9 @@ def run_model(ctx, name, stakes, depth=1, overlap=True, product=True, mod=1, tim
         "refused": sum(v for k, v in sh.items() if k.endswith("|false")),
         "double_count_boundary": flag("dc"), "ff_between_thresholds": flag("mid", "ff"),
         "out_of_range_signers": flag("oor")}
+    # where the implementation stopped the low-order-point alterations (informational: decode or validation)
+    ctx.notes.setdefault("sig_torsion_observed", {})[name] = {
+        k: v for k, v in rep["act_hist"].items() if ":sigTorsion:" in k}
     ctx.replay_report(name, rep)
     return r, rep
 
